@@ -30,6 +30,12 @@ def base_modules(g, rng, count):
     # 64-bit literal context + switch
     mods.append(["15/-/7/L40,L1", "2b/7/8/Q123456789abcdef0", "1/7/9/-", "fb/-/-/R9,R20,Q1,R21,Qffffffffffffffff,R22"])
     mods.append(["15/-/7/L80,L0", "2b/7/8/L1"])  # unsupported width (rejected)
+    # unsupported float / int widths at different instruction numbers and offsets, for constants,
+    # spec constants and switch selectors (TypeUnsupported carries offset AND instruction number)
+    mods.append(["11/-/-/E%d.1" % g.kidx["Capability"], "16/-/7/L18", "13/-/5/-", "2b/7/8/L1"])
+    mods.append(["16/-/7/L8", "32/7/8/L1"])
+    mods.append(["13/-/5/-", "13/-/6/-", "16/-/7/L80", "1/7/9/-", "fb/-/-/R9,R20,L1,R21"])
+    mods.append(["15/-/7/L18,L1", "13/-/5/-", "2b/7/8/L1"])
     # every enumerant / mask bit that takes parameters, alone in a module (fault enumeration then
     # drops / duplicates each parameter word)
     dec, em = by["Decorate"], by["ExecutionMode"]
